@@ -171,3 +171,44 @@ Example ex_put_refines :
              jput [PKey "c"; PSel "name" "x"; PKey "m"; PKey "k"] (to_json (str "v")) (to_json doc)
              = Some (to_json n').
 Proof. eexists. split; vm_compute; reflexivity. Qed.
+
+(* ---------- more operations refine the reference model ---------- *)
+Lemma jremove_map k kvs : jremove k (map tj kvs) = map tj (remove_first k kvs).
+Proof.
+  induction kvs as [|[k' v] t IH]; cbn; [reflexivity|].
+  destruct (String.eqb k' k); cbn; [reflexivity|now rewrite IH].
+Qed.
+
+(* Lookup + Clear *)
+Lemma clear_refines ps name n n' :
+  no_null_path ps n = true -> clear_at ps name n = Ok (n', Some tt) ->
+  jclear ps name (to_json n) = Some (to_json n').
+Proof.
+  intros NN H. unfold jclear. eapply walk_refines; eauto.
+  intros x x' a K Nx. unfold k_clear, clear_field in K.
+  destruct x as [t s v|kvs|es]; cbn in K.
+  - destruct t; cbn in Nx, K; discriminate.
+  - inv K. cbn -[jremove]. fold tj. now rewrite jremove_map.
+  - discriminate.
+Qed.
+
+(* LookupCreate(ScalarNode) + FieldSetter{Value: v} *)
+Lemma put_scalar_refines ps v n n' :
+  is_null v = false -> tagged v = true -> no_null_path ps n = true ->
+  put_scalar ps v n = Ok (n', Some tt) ->
+  jput_scalar ps (to_json v) (to_json n) = Some (to_json n').
+Proof.
+  intros Nv Tv NN H. unfold jput_scalar. eapply walk_refines; eauto.
+  intros x x' a K Nx. unfold k_set_scalar, set_scalar in K.
+  destruct x as [t s w|kvs|es]; try discriminate.
+  rewrite Nx, Nv in K. cbn in K. inv K. cbn. now rewrite (to_json_with_style s v Tv).
+Qed.
+
+(* LookupCreate alone: the JSON image of the document afterwards is the reference "create the path" *)
+Lemma lookup_create_refines leaf ps n n' x :
+  no_null_path ps n = true -> lookup_create leaf ps n = Ok (n', Some x) ->
+  jupd (Some leaf) ps (fun j => Some j) (to_json n) = Some (to_json n').
+Proof.
+  intros NN H. eapply walk_refines; eauto.
+  intros y y' a K _. unfold k_get in K. now inv K.
+Qed.
